@@ -18,6 +18,8 @@ CHECKS = {
          "every enumerated indexing expression on every enumerated operator is compared with the same expression on the exact reference matrix; sub-operators additionally through shape, dtype, to_dense, products with real and complex operands on both sides"),
  "C04": ("complete lattice function x operator class (all classes found by walking LinearOperator.__subclasses__, plus one-level composites) x annotation x algorithm class x optional-argument arity: real plum resolver on real arguments, then the public call",
          "every point of the finite (function, kind, annotation, algorithm, arity) lattice is resolved with the live rule table and, for admitted algorithms, executed through the public entry point; AmbiguousLookupError anywhere and NotFoundLookupError on admitted tuples are violations"),
+ "C13": ("(operator family, size, right-hand side, x0, tol, entry point) x every truncation m: each m-step run is a checked state; independent Krylov least-squares optimum (exact rationals for real integer systems n<=6)",
+         "for every enumerated system and every iteration cap m the returned iterate is compared per column with the independently computed minimum of ||b - A x|| over x0 + K_m, plus monotonicity in m, convergence at full dimension, the cap on products with A and non-mutation of inputs"),
 }
 PENDING = {}
 props = [json.loads(l) for l in open(os.path.join(ROOT, "properties.jsonl"))]
